@@ -5,6 +5,7 @@ import (
 	"database/sql"
 	"fmt"
 	"regexp"
+	"seata.apache.org/seata-go/pkg/protocol/message"
 	"strings"
 
 	"github.com/go-sql-driver/mysql"
@@ -15,7 +16,8 @@ import (
 func init() { props["C16"] = runC16 }
 
 type c16Step struct {
-	kind string // exec prep query multi raw ddl begin commit rollback
+	opts *sql.TxOptions // begin: the options of the local transaction (nil: default)
+	kind string         // exec prep query multi raw ddl begin commit rollback
 	st   *ATStmt
 	sql  string // with {T} for the table name (query, multi, raw, ddl)
 	args []interface{}
@@ -125,7 +127,7 @@ func runC16Program(ctx context.Context, w *ATWorld, db *sql.DB, sc *ATSchema, ta
 					res.outs = append(res.outs, "-")
 					continue
 				}
-				t, err := db.BeginTx(ctx, nil)
+				t, err := db.BeginTx(ctx, s.opts)
 				if err != nil {
 					res.outs = append(res.outs, errText(err))
 				} else {
@@ -251,7 +253,15 @@ func runC16(c *Ctx) {
 				}(), args: wargs})
 			case x < 13:
 				if !inTx {
-					steps = append(steps, c16Step{kind: "begin"})
+					st := c16Step{kind: "begin"}
+					// the application asks for an isolation level or a read-only transaction
+					switch (i + k) % 4 {
+					case 2:
+						st.opts = &sql.TxOptions{Isolation: sql.LevelSerializable}
+					case 3:
+						st.opts = &sql.TxOptions{Isolation: sql.LevelRepeatableRead, ReadOnly: mode != "at-inside"}
+					}
+					steps = append(steps, st)
 					inTx = true
 				}
 			case x < 16:
@@ -343,10 +353,22 @@ func runC16(c *Ctx) {
 		case "xa-outside":
 			prox = runC16Program(context.Background(), w, xa, sc, tA, steps)
 		default:
+			if i%5 == 2 {
+				// the coordinator cannot be reached for the phase-one reports of this program: that is the
+				// coordinator's business (it will ask), the statements' results must not depend on it
+				w.coord.Script = func(s *FakeSession, kind string, m message.RpcMessage) Action {
+					if _, ok := m.Body.(message.BranchReportRequest); ok {
+						return Action{TransportE: true}
+					}
+					return Action{}
+				}
+				c.Out.Count("reports-refused")
+			}
 			InGlobalTx(cid, func(ctx context.Context) error {
 				prox = runC16Program(ctx, w, w.DB, sc, tA, steps)
 				return nil
 			})
+			w.coord.Script = nil
 		}
 		w.Eng.SetSkipFastPath(false)
 		// ---- observation for the model: results of the modelled steps and the final table
